@@ -171,6 +171,9 @@ func main() {
 	out := flag.String("out", "", "output file (JSON lines)")
 	replay := flag.String("replay", "", "replay file: re-executes the schedule in it on the real store")
 	race := flag.Bool("conc", true, "run the concurrent histories as well")
+	oSched := flag.Int("nsched", -1, "override: number of generated schedules")
+	oConc := flag.Int("nconc", -1, "override: number of concurrent histories (inmem)")
+	oRaft := flag.Int("nraft", -1, "override: number of concurrent histories (raft-backed)")
 	flag.Parse()
 
 	if *replay != "" {
@@ -200,6 +203,15 @@ func main() {
 	nSched, nMal, nConc, nRaft := 1200, 200, 160, 0
 	if *tier == "thorough" {
 		nSched, nMal, nConc, nRaft = 12000, 2000, 1500, 500
+	}
+	if *oSched >= 0 {
+		nSched, nMal = *oSched, *oSched/6
+	}
+	if *oConc >= 0 {
+		nConc = *oConc
+	}
+	if *oRaft >= 0 {
+		nRaft = *oRaft
 	}
 	rng := rand.New(rand.NewSource(*seed))
 
